@@ -199,6 +199,15 @@ def run(ctx, thorough=False):
               found=[show(x, maxdepth=3) for x in les])
 
     _glue(ctx, prog, cc, ib)
+    if ctx.pid == 'C07':
+        # where limits come from: the URDF loader's "no limit" encoding (from = to = 0) and its angle syntax feed Constraints::new;
+        # those two clauses of C20 are part of what C07's anchors name (src/urdf.rs)
+        from . import C20
+        fu = util.find_one(ctx, suffix='urdf::from_urdf')
+        ctx.rule('R20.2', 'no <limit> -> from = to = 0 untouched; to_robot/constraints pass from/to unchanged to Constraints::new')
+        ctx.rule('R20.6', 'the capture group parsed as the xacro angle spans the whole decimal number')
+        C20.limits_defaults(ctx, fu)
+        C20.angle_syntax(ctx, fu)
 
 
 def _triple_ok(a, ce, to, idx_t, angles_ok):
